@@ -65,6 +65,31 @@ def _lattice(rng, tier):
     for fam in fams(("f", "g", "h")):
         for icpt in (True, False):
             emit(fam, ("f", "g", "h"), icpt, False)
+    # families over categorical subsets of {f, g} each multiplied by one numeric part (x, or x:z): the helper
+    # terms of a numeric-categorical interaction carry ALL its numeric factors
+    for numpart in (("x",), ("x", "z")):
+        subs = [(), ("f",), ("g",), ("f", "g")]
+        for mask in range(1, 2 ** len(subs)):
+            fam0 = [subs[i] for i in range(len(subs)) if mask >> i & 1]
+            for icpt in (True, False):
+                fam = []
+                for t in fam0:
+                    cat = list(t)
+                    rng.shuffle(cat)
+                    # the numeric factors keep their relative order (another order is the listed KF-C03-3)
+                    pos = sorted(rng.sample(range(len(cat) + len(numpart)), len(numpart)))
+                    term, ci, ni = [], 0, 0
+                    for k in range(len(cat) + len(numpart)):
+                        if ni < len(numpart) and k == pos[ni]:
+                            term.append(numpart[ni]); ni += 1
+                        else:
+                            term.append(cat[ci]); ci += 1
+                    fam.append(term)
+                rng.shuffle(fam)
+                f = "y ~ " + ("" if icpt else "0 + ") + " + ".join(":".join(t) for t in fam)
+                nlev = {"f": rng.choice([2, 3]), "g": rng.choice([2, 3]), "h": 2}
+                fr = gen_dm.make_frame(rng, factorial=True, cats=["f", "g", "h"], nlev=nlev, extra_cols=False, reps=4)
+                out.append({"formula": f, "frame": fr, "na": "drop", "kind": "numlattice", "family": fam, "icpt": icpt})
     four = list(fams(("f", "g", "h", "c")))
     if tier != "thorough":
         four = rng.sample(four, 300)
